@@ -39,7 +39,7 @@ func c06Cfg(c *core.Ctx, idx int) wl.Cfg {
 	cfg.Closer = 1 + (idx/10)%4
 	cfg.Writers = 1 + rng.Intn(3)
 	cfg.PerWriter = 1 + rng.Intn(4)
-	cfg.Sizes = []int{1, 16, 17, 100, 1024, 1025, 4097}
+	cfg.Sizes = []int{0, 0, 1, 16, 17, 100, 1024, 1025, 4097} // empty payloads are accepted too (and owe nothing but must not cost the others their flush)
 	if cfg.Mode == mon.NonBlock {
 		// refused writes are fine, but keep most accepted
 		if cfg.Writers*cfg.PerWriter > cfg.Queue+1 {
